@@ -550,6 +550,11 @@ fn gen_long(rng: &mut Rng, trunks: u32) -> (u32, Vec<Op>) {
         ops.push(Op::Fill(before - 8));
         ops.push(Op::Chain);
         { let k = 30 + rng.below(30); churn(rng, &mut ops, k); }
+        // the pages about to be released (one of them becomes the next trunk page) carry client data:
+        // non-zero page type, next pointer, count field and slot area
+        if rng.chance(2, 3) {
+            for j in 0..12u32 { ops.push(Op::PokeIdx { i: j, pt: 0x55, next: 1234 + j, cnt: if j % 3 == 0 { 5000 + j } else { 3 + j }, k: 4, v: 1000 + 10 * j }); }
+        }
         ops.push(Op::Fill(12));
         { let k = 30 + rng.below(30); churn(rng, &mut ops, k); }
         ops.push(Op::Chain);
